@@ -14,6 +14,7 @@ import (
 	"github.com/gogpu/naga"
 	"github.com/gogpu/naga/hlsl"
 	"github.com/gogpu/naga/ir"
+	"github.com/gogpu/naga/glsl"
 	"github.com/gogpu/naga/msl"
 	"github.com/gogpu/naga/spirv"
 )
@@ -412,6 +413,7 @@ func cmdC07(c *ctx) {
 		res, mslDecls := c07run(src, np)
 		c.line("impl.txt", res)
 		c.line("msl.txt", mslDecls)
+		c.line("glsl.txt", c07glsl(src))
 		c.line("src.txt", q(src))
 		c.count(fmt.Sprintf("depth=%d", depth))
 		c.count(fmt.Sprintf("structs=%d", len(g.structs)))
@@ -458,6 +460,63 @@ func c07run(src string, npaths int) (string, string) {
 		decls = mslDecls(ms)
 	}
 	return out, decls
+}
+
+var (
+	glslStructRe = regexp.MustCompile(`(?s)struct (\w+) \{(.*?)\n\};`)
+	glslFieldRe  = regexp.MustCompile(`^\s*(\w+) (\w+)((?:\[\d+\])*);$`)
+	glslBlockRe  = regexp.MustCompile(`layout\((std430|std140)[^)]*\)\s*(?:readonly |writeonly )?(?:buffer|uniform) \w+ \{ (\w+) _group_0_binding_0_cs;`)
+	glslDimRe    = regexp.MustCompile(`\[(\d+)\]`)
+)
+
+// c07glsl: the struct declarations of the GLSL text and the layout qualifier of the block that holds `buf`, as
+// (glsl std430|std140 "<type of buf>" (struct name (f ty name d1 d2 …) …) …): the GLSL back end writes no offsets, so the
+// layout of the buffer is the one the qualifier prescribes for these declarations.
+func c07glsl(src string) string {
+	ast, err := naga.Parse(src)
+	if err != nil {
+		return "(error \"parse\")"
+	}
+	m, err := naga.LowerWithSource(ast, src)
+	if err != nil {
+		return "(error \"lower\")"
+	}
+	text := ""
+	if r := guard("glsl", func() error {
+		s, _, e := glsl.Compile(m, glsl.Options{LangVersion: glsl.Version430, EntryPoint: "main"})
+		text = s
+		return e
+	}); r.err != "" {
+		return "(error " + q(oneLine(r.err)) + ")"
+	}
+	blk := glslBlockRe.FindStringSubmatch(text)
+	if blk == nil {
+		return "(error \"no interface block for buf\")"
+	}
+	var b strings.Builder
+	fmt.Fprintf(&b, "(glsl %s %s", blk[1], q(blk[2]))
+	for _, st := range glslStructRe.FindAllStringSubmatch(text, -1) {
+		fmt.Fprintf(&b, " (struct %s", q(st[1]))
+		for _, ln := range strings.Split(st[2], "\n") {
+			ln = strings.TrimSpace(ln)
+			if ln == "" {
+				continue
+			}
+			f := glslFieldRe.FindStringSubmatch(ln)
+			if f == nil {
+				fmt.Fprintf(&b, " (unparsed %s)", q(ln))
+				continue
+			}
+			fmt.Fprintf(&b, " (f %s %s", q(f[1]), q(f[2]))
+			for _, d := range glslDimRe.FindAllStringSubmatch(f[3], -1) {
+				b.WriteString(" " + d[1])
+			}
+			b.WriteString(")")
+		}
+		b.WriteString(")")
+	}
+	b.WriteString(")")
+	return b.String()
 }
 
 var hlslStoreRe = regexp.MustCompile(`\bbuf\.(?:Store[234]?|Interlocked\w+)(?:<\w+>)?\(([0-9+* ]+),`)
